@@ -493,6 +493,12 @@ func (runInfo *runInfoStruct) runForStmt(stmt *ast.ForStmt) {
 	case reflect.Map:
 		runInfo.runForMapStmt(stmt, value)
 	case reflect.Chan:
+		if value.Type().ChanDir() == reflect.SendDir {
+			// reflect would panic
+			runInfo.err = newStringError(stmt, "for cannot loop over a send-only channel")
+			runInfo.rv = nilValue
+			break
+		}
 		// the operand is evaluated once: a channel read from a typed slot is the
 		// channel that is in the slot now, not the slot
 		runInfo.runForChanStmt(stmt, detachValue(value))
@@ -1001,6 +1007,12 @@ func (runInfo *runInfoStruct) runChanStmt(stmt *ast.ChanStmt) {
 	// rhs is channel
 	// receive from rhs channel
 	rhs := runInfo.rv
+	if rhs.Type().ChanDir() == reflect.SendDir {
+		// reflect would panic
+		runInfo.err = newStringError(stmt, "receive from send-only channel")
+		runInfo.rv = nilValue
+		return
+	}
 	if runInfo.interrupted() {
 		// cancelled before the operation starts: never a matter of which case Select picks
 		runInfo.err = ErrInterrupt
